@@ -202,7 +202,13 @@ func genC13(t *rapid.T) c13Case {
 func callGuard(o *vlib.Outcome, what string, f func()) bool {
 	done := make(chan interface{}, 1)
 	go func() {
-		defer func() { done <- recover() }()
+		defer func() {
+			r := recover()
+			if r != nil {
+				r = fmt.Sprintf("%v\n%s", r, debug.Stack())
+			}
+			done <- r
+		}()
 		f()
 	}()
 	select {
